@@ -8,6 +8,9 @@ P = {
  "C06": ("exploration", "exhaustive enumeration of operator pairs and triples in every tree shape + rapid PBT; metamorphic (minimal vs full vs redundant parentheses) and differential against the reference evaluation of the intended tree",
    "All 15^2 pairs and 15^3 triples of binary operators over two operand sets in every tree shape, every prefix operator against every binary operator and postfix form, is, assignment chains, then 10k (quick) / 150k (thorough) random trees to depth 6/8. Each intended tree is rendered three ways; the renderings must agree with each other and with refjq. Exploration, exhaustive over operator pairs and triples.",
    "Trusted: the harness renderer inserts exactly the parentheses table 3.9 requires (its output for the intended tree is the statement of what the text means); refjq for values. ++/-- only inside parentheses, as the property states.", "5/C06, 3.9"),
+ "C01": ("exploration", "rapid PBT over mutated structured programs, arbitrary bytes and hostile constants + exhaustive small-scope enumeration of control-keyword placements; validity predicate over the outcome (nil / SyntaxError / RuntimeError / JsonError, no recovered panic, process survives; binary: exit 0/1, diagnostic iff 1, no stack trace), deterministic termination through the verif cost-budget hook",
+   "G2 complete: 6 control statements x 10 kinds of place x 5 wrappers x 3 inputs = 900 programs, each also through the binary with and without -o -; 86 hostile constants (nests to depth 20000, runaway recursion, doubling loops, cyclic values, limits); 16k (800k thorough) mutated structured programs with selectors and hostile inputs; 6k (400k) byte-level cases. Thorough adds native coverage-guided fuzzing. Exploration (G2: exhaustive over a stated finite scope).",
+   "A run stopped by the cost budget (200k units) is inconclusive (discarded, counted). Go fatal errors are caught by re-running the in-flight case in a fresh process. Texts nesting beyond 64 KiB are outside the claim.", "5/C01"),
  "C02": ("exploration", "rapid PBT + exhaustive small-scope enumeration of rule mixes; differential against a reference model of the awk-style rule schedule",
    "Tracing programs (every rule prints its id, $file, $, $index) over generated configurations of files x values x selectors x root shapes are compared line by line with the schedule of DESIGN.md 4.1; plus every ordered choice of <= 3 rules x {exit|next|none in rule j} x 3 fixed configurations, completely. Exploration (model-based differential).",
    "Trusted: refjq's driver as the documented schedule. Not asserted (discarded, counted): $index outside array roots, $file outside file processing, `next` outside pattern rules, $ in ENDFILE after the root was replaced.", "5/C02, 4.1"),
@@ -64,7 +67,7 @@ P = {
    "Trusted: refjq's transcription of DESIGN.md section 3; Go's regexp for RE2; exotic numeric strings, non-finite results and |x| >= 2^53 for % are unspecified and discarded (counted).", "5/C05, 3"),
 }
 
-PENDING_REASON = "check not built yet in this round (work in progress; the design in DESIGN.md section 5 applies)"
+PENDING_REASON = "(unused) check not built yet in this round (work in progress; the design in DESIGN.md section 5 applies)"
 
 def main():
     ids = [json.loads(l)["id"] for l in open(os.path.join(ROOT, "properties.jsonl"))]
